@@ -9,7 +9,7 @@ impl vstd::std_specs::convert::FromSpecImpl<cln_rpc::RpcError> for RpcError {
     open spec fn from_spec(v: cln_rpc::RpcError) -> Self { RpcError::Rpc(v) }
 }
 /// what a wrapper method must return, given what happened on the wire
-pub open spec fn passes_through<T>(t: Trace<T>, r: ::std::result::Result<T, RpcError>) -> bool {
+pub open spec fn passes_through<Q, T>(t: Trace<Q, T>, r: ::std::result::Result<T, RpcError>) -> bool {
     match t.last {
         // no request went out: a connection (transport) problem, reported as General
         None => !t.called && r is Err && r->Err_0 is General,
@@ -22,15 +22,19 @@ pub open spec fn passes_through<T>(t: Trace<T>, r: ::std::result::Result<T, RpcE
 
 //@ fn rpc::ClnRpc::datastore
 //@ returns r
-//@ ghostparam Tracked(t): Tracked<&mut Trace<DatastoreResponse>>
+//@ ghostparam Tracked(t): Tracked<&mut Trace<DatastoreRequest, DatastoreResponse>>
 //@ requires#fresh [C08,C09,C14]
       !old(t).called && old(t).last is None && !old(t).shared_lock_held
 //@ ensures#hands_back_exactly_what_the_node_answered [C08,C09,C05,C02]
       passes_through(*final(t), r) && !final(t).shared_lock_held
+//@ ensures#the_request_goes_to_the_node_unchanged [C08,C09,C05,C14]
+//    nothing is added to, dropped from or defaulted in the caller's request (e.g. a timeout the
+//    caller deliberately left out: wait_payment waits without a deadline of its own)
+      final(t).called ==> final(t).sent == Some(*request)
 //@ end
 //@ fn rpc::ClnRpc::get_info
 //@ returns r
-//@ ghostparam Tracked(t): Tracked<&mut Trace<GetinfoResponse>>
+//@ ghostparam Tracked(t): Tracked<&mut Trace<GetinfoRequest, GetinfoResponse>>
 //@ requires#fresh [C20,C14]
       !old(t).called && old(t).last is None && !old(t).shared_lock_held
 //@ ensures#hands_back_exactly_what_the_node_answered [C20]
@@ -38,59 +42,75 @@ pub open spec fn passes_through<T>(t: Trace<T>, r: ::std::result::Result<T, RpcE
 //@ end
 //@ fn rpc::ClnRpc::listdatastore
 //@ returns r
-//@ ghostparam Tracked(t): Tracked<&mut Trace<ListdatastoreResponse>>
+//@ ghostparam Tracked(t): Tracked<&mut Trace<ListdatastoreRequest, ListdatastoreResponse>>
 //@ requires#fresh [C08,C09,C14]
       !old(t).called && old(t).last is None && !old(t).shared_lock_held
 //@ ensures#hands_back_exactly_what_the_node_answered [C08,C09,C05,C02,C01]
       passes_through(*final(t), r) && !final(t).shared_lock_held
+//@ ensures#the_request_goes_to_the_node_unchanged [C08,C09,C05,C02,C01,C14]
+//    nothing is added to, dropped from or defaulted in the caller's request (e.g. a timeout the
+//    caller deliberately left out: wait_payment waits without a deadline of its own)
+      final(t).called ==> final(t).sent == Some(*request)
 //@ end
 //@ fn rpc::ClnRpc::listsendpays
 //@ returns r
-//@ ghostparam Tracked(t): Tracked<&mut Trace<ListsendpaysResponse>>
+//@ ghostparam Tracked(t): Tracked<&mut Trace<ListsendpaysRequest, ListsendpaysResponse>>
 //@ requires#fresh [C15,C14]
       !old(t).called && old(t).last is None && !old(t).shared_lock_held
 //@ ensures#hands_back_exactly_what_the_node_answered [C15,C16,C02,C05,C08,C01]
       passes_through(*final(t), r) && !final(t).shared_lock_held
+//@ ensures#the_request_goes_to_the_node_unchanged [C15,C16,C02,C05,C08]
+//    nothing is added to, dropped from or defaulted in the caller's request (e.g. a timeout the
+//    caller deliberately left out: wait_payment waits without a deadline of its own)
+      final(t).called ==> final(t).sent == Some(*request)
 //@ end
 //@ fn rpc::ClnRpc::pay
 //@ returns r
-//@ ghostparam Tracked(t): Tracked<&mut Trace<PayResponse>>
+//@ ghostparam Tracked(t): Tracked<&mut Trace<PayRequest, PayResponse>>
 //@ requires#fresh [C16,C14]
       !old(t).called && old(t).last is None && !old(t).shared_lock_held
 //@ ensures#hands_back_exactly_what_the_node_answered [C16,C02,C05,C08,C01]
       passes_through(*final(t), r) && !final(t).shared_lock_held
+//@ ensures#the_request_goes_to_the_node_unchanged [C16,C03,C04,C05,C19]
+//    nothing is added to, dropped from or defaulted in the caller's request (e.g. a timeout the
+//    caller deliberately left out: wait_payment waits without a deadline of its own)
+      final(t).called ==> final(t).sent == Some(*request)
 //@ end
 //@ fn rpc::ClnRpc::waitsendpay
 //@ returns r
-//@ ghostparam Tracked(t): Tracked<&mut Trace<WaitsendpayResponse>>
+//@ ghostparam Tracked(t): Tracked<&mut Trace<WaitsendpayRequest, WaitsendpayResponse>>
 //@ requires#fresh [C15,C14]
       !old(t).called && old(t).last is None && !old(t).shared_lock_held
 //@ ensures#hands_back_exactly_what_the_node_answered [C15,C16,C09,C02,C05,C08,C03]
       passes_through(*final(t), r) && !final(t).shared_lock_held
+//@ ensures#the_request_goes_to_the_node_unchanged [C15,C16,C09,C02,C05,C08]
+//    nothing is added to, dropped from or defaulted in the caller's request (e.g. a timeout the
+//    caller deliberately left out: wait_payment waits without a deadline of its own)
+      final(t).called ==> final(t).sent == Some(request)
 //@ end
 
 //@ fn rpc::Rpc::datastore
-//@ ghostparam Tracked(t): Tracked<&mut Trace<DatastoreResponse>>
+//@ ghostparam Tracked(t): Tracked<&mut Trace<DatastoreRequest, DatastoreResponse>>
 //@ implicit [C06,C14,C17]
 //@ end
 //@ fn rpc::Rpc::get_info
-//@ ghostparam Tracked(t): Tracked<&mut Trace<GetinfoResponse>>
+//@ ghostparam Tracked(t): Tracked<&mut Trace<GetinfoRequest, GetinfoResponse>>
 //@ implicit [C06,C14,C17]
 //@ end
 //@ fn rpc::Rpc::listdatastore
-//@ ghostparam Tracked(t): Tracked<&mut Trace<ListdatastoreResponse>>
+//@ ghostparam Tracked(t): Tracked<&mut Trace<ListdatastoreRequest, ListdatastoreResponse>>
 //@ implicit [C06,C14,C17]
 //@ end
 //@ fn rpc::Rpc::listsendpays
-//@ ghostparam Tracked(t): Tracked<&mut Trace<ListsendpaysResponse>>
+//@ ghostparam Tracked(t): Tracked<&mut Trace<ListsendpaysRequest, ListsendpaysResponse>>
 //@ implicit [C06,C14,C17]
 //@ end
 //@ fn rpc::Rpc::pay
-//@ ghostparam Tracked(t): Tracked<&mut Trace<PayResponse>>
+//@ ghostparam Tracked(t): Tracked<&mut Trace<PayRequest, PayResponse>>
 //@ implicit [C06,C14,C17]
 //@ end
 //@ fn rpc::Rpc::waitsendpay
-//@ ghostparam Tracked(t): Tracked<&mut Trace<WaitsendpayResponse>>
+//@ ghostparam Tracked(t): Tracked<&mut Trace<WaitsendpayRequest, WaitsendpayResponse>>
 //@ implicit [C06,C14,C17]
 //@ end
 //@ fn rpc::Rpc::new
